@@ -6,7 +6,7 @@ WT=/tmp/seedrun
 for spec in "$@"; do
   IFS=: read id n checks <<< "$spec"
   git -C $WT checkout -q -- . ; git -C $WT clean -fdq >/dev/null 2>&1
-  git -C $WT apply /verif/seeded/$id/patch$n.diff 2>/dev/null || git -C $WT apply /tmp/seed/out/$id/patch$n.diff || { echo -e "$id\t$n\t-\tPATCH-FAILS" >> $OUT; continue; }
+  git -C $WT apply ${SEED_OUT:-/tmp/seed/out}/$id/patch$n.diff || { echo -e "$id\t$n\t-\tPATCH-FAILS" >> $OUT; continue; }
   for c in $checks; do
     SYMX_REPO=$WT SYMX_EVIDENCE_DIR=/verif/out/try_evidence ${TIER_ENV:-} /verif/check $c ${TIER:-quick} > /verif/out/seed_${id}_${n}_$c.log 2>&1; rc=$?
     nv=$(grep -c '^VIOLATION' /verif/out/seed_${id}_${n}_$c.log); nh=$(grep -c '^HARNESS-ERROR' /verif/out/seed_${id}_${n}_$c.log); ni=$(grep -c '^INCONCLUSIVE' /verif/out/seed_${id}_${n}_$c.log)
